@@ -9,7 +9,7 @@ CONSTANTS
   MsgKinds <- mcMsgKinds
   BatchMax = 1
   MaxMsgs = 3
-  MaxTime = 5
+  MaxTime = 4
   TickDs = {1, 2}
   PullMaxes = {3}
   Ops <- mcOps
